@@ -1,0 +1,145 @@
+//go:build verif
+
+// Contracts for lru.go, checked by /verif (govc). This file contains no code:
+// it is compiled only with -tags verif and every line is a comment.
+//
+// Vocabulary (see /verif/spec/prelude.smt2):
+//   c.ll.seq          ghost recency sequence of *entry references, front = most recent
+//   e.owner           ghost: the list an element currently belongs to (0 = none)
+//   sum4k(s, A)       sum over the entries x of s of r4k(A[itemOf(x)]), A a field of lruItem
+//   evq               ghost bag of entries handed to the asynchronous remover
+//   qobs              ghost: value of queuedEvictionsSize observed by the last Load
+
+package disk
+
+//@ ghostfield container/list.List.seq GSeq
+//@ ghostfield container/list.Element.owner Int
+//@ ghost evq GSeq
+//@ ghost qobs Int
+
+//@ pred entKey(x) = ikey(strkey(#entry.key[x]))
+//@ pred entSod(x) = #lruItem.sizeOnDisk[itemOf(x)]
+//@ pred entSize(x) = #lruItem.size[itemOf(x)]
+//@ pred B62() = 4611686018427387904
+// max_size is assumed to be at most 2^61 bytes (2 EiB): with reservedSize == maxSize == 2^62 and an
+// item of 2^62 bytes the test `c.reservedSize+sizeDelta > c.maxSize` in Add wraps around.
+//@ pred BMAX() = 2305843009213693952
+
+// Structural part of the SizedLRU invariant: list, map and entries agree.
+//@ pred lruIndex(c) = c.ll != nil && c.cache != nil &&
+//@   c.gaugeCacheLogicalBytes != nil && c.counterEvictedBytes != nil && c.counterOverwrittenBytes != nil && c.summaryCacheItemBytes != nil &&
+//@   (forall x Int :: member(c.ll.seq, x) ==>
+//@       x != 0 && allocated(x) && allocated(itemOf(x)) && 0 <= entSod(x) && entSod(x) <= B62() && 0 <= entSize(x) && entSize(x) <= B62() &&
+//@       mapdom(c.cache)[entKey(x)] &&
+//@       #list.Element.Value.val[mapval(c.cache)[entKey(x)]] == x &&
+//@       #list.Element.owner[mapval(c.cache)[entKey(x)]] == ref(c.ll)) &&
+//@   (forall k Int :: mapdom(c.cache)[k] ==>
+//@       mapval(c.cache)[k] != 0 && #list.Element.owner[mapval(c.cache)[k]] == ref(c.ll) &&
+//@       entKey(#list.Element.Value.val[mapval(c.cache)[k]]) == k) &&
+//@   (forall e Int :: #list.Element.owner[e] == ref(c.ll) ==>
+//@       e != 0 && #list.Element.Value.tag[e] == typetag("*entry") &&
+//@       member(c.ll.seq, #list.Element.Value.val[e]) &&
+//@       mapdom(c.cache)[entKey(#list.Element.Value.val[e])] &&
+//@       mapval(c.cache)[entKey(#list.Element.Value.val[e])] == e)
+
+// Accounting part: the property C03 itself.
+//@ pred lruSizes(c) = 0 < c.maxSize && c.maxSize <= BMAX() &&
+//@   0 <= c.reservedSize &&
+//@   c.currentSize == c.reservedSize + sum4k(c.ll.seq, #lruItem.sizeOnDisk) &&
+//@   c.currentSize <= c.maxSize &&
+//@   c.uncompressedSize == sum4k(c.ll.seq, #lruItem.size) && c.uncompressedSize <= B62()
+
+//@ pred lruInv(c) = c != nil && lruIndex(c) && lruSizes(c)
+
+//@ func roundUp4k(n int64) int64
+//@   serves C03 C05 C17
+//@   requires 0 <= n && n <= 4611686018427387904
+//@   ensures[C03] exact: result == r4k(n)
+//@   ensures nonneg: result >= n && result < n + 4096 && result % 4096 == 0
+
+//@ func sumLargerThan(a, b, c int64) bool
+//@   serves C03 C05 C17
+//@   requires a > 0 && b >= 0 && c > 0
+//@   ensures[C03,C17] exact: result <==> a + b > c
+
+//@ func (c *SizedLRU) Unreserve(size int64) error
+//@   serves C03
+//@   requires c != nil && c.currentSize >= 0 && c.reservedSize >= 0
+//@   modifies c.currentSize, c.reservedSize
+//@   ensures[C03] ok: result == nil ==> (size >= 0 && c.currentSize == old(c.currentSize) - size && c.reservedSize == old(c.reservedSize) - size && (size > 0 ==> c.currentSize >= 0 && c.reservedSize >= 0))
+//@   ensures[C03] err: result != nil ==> (c.currentSize == old(c.currentSize) && c.reservedSize == old(c.reservedSize))
+//@   ensures[C03] total: (size >= 0 && size <= old(c.reservedSize) && size <= old(c.currentSize)) ==> result == nil
+
+// The channel hand-over is not modelled: this contract is ASSUMED (trusted).
+//@ func (c *SizedLRU) appendEvictionToQueue(e *entry)
+//@   trusted
+//@   requires c != nil && e != nil
+//@   modifies evq
+//@   ensures evq == qadd(old(evq), ref(e))
+
+//@ func (c *SizedLRU) removeElement(e *list.Element)
+//@   serves C03 C04 C05 C07 C17
+//@   requires c != nil && lruIndex(c)
+//@   requires elem: e != nil && e.owner == ref(c.ll)
+//@   requires nowrap: 0 - B62() <= c.currentSize && c.currentSize <= B62() && 0 - B62() <= c.uncompressedSize && c.uncompressedSize <= B62()
+//@   modifies c.currentSize, c.uncompressedSize, c.ll.seq, mapof(c.cache), #list.Element.owner, evq
+//@   ensures[C03,C07] index: lruIndex(c)
+//@   ensures[C03,C05] seq: c.ll.seq == seqremove(old(c.ll.seq), payload(e.Value)) && member(old(c.ll.seq), payload(e.Value))
+//@   ensures[C03] cur: c.currentSize == old(c.currentSize) - r4kc(entSod(payload(e.Value)))
+//@   ensures[C03] unc: c.uncompressedSize == old(c.uncompressedSize) - r4kc(entSize(payload(e.Value)))
+//@   ensures[C04] queued: evq == qadd(old(evq), payload(e.Value))
+//@   ensures owner: e.owner == 0 && (forall o Int :: o != ref(e) ==> #list.Element.owner[o] == old(#list.Element.owner)[o])
+
+//@ func (c *SizedLRU) Get(key string) (lruItem, *list.Element)
+//@   serves C03 C05 C07
+//@   requires lruInv(c)
+//@   modifies c.ll.seq
+//@   ensures[C03,C07] inv: lruInv(c)
+//@   ensures[C05] hit: old(has(c.cache, strkey(key))) ==> (result1 == c.cache[strkey(key)] && result1 != nil && result1.owner == ref(c.ll) &&
+//@       c.ll.seq == mtf(old(c.ll.seq), payload(result1.Value)) && seqfront(c.ll.seq) == payload(result1.Value) &&
+//@       result0.size == entSize(payload(result1.Value)) && result0.sizeOnDisk == entSod(payload(result1.Value)))
+//@   ensures[C05] miss: !old(has(c.cache, strkey(key))) ==> (result1 == nil && c.ll.seq == old(c.ll.seq))
+
+//@ func (c *SizedLRU) Reserve(size int64) error
+//@   serves C03 C05 C07 C17
+//@   requires lruInv(c)
+//@   modifies c.currentSize, c.reservedSize, c.uncompressedSize, c.ll.seq, mapof(c.cache), #list.Element.owner, evq, qobs, c.totalDiskSizePeak
+//@   ensures[C03,C07] inv: lruInv(c)
+//@   ensures[C03] ok: result == nil ==> (size >= 0 && c.reservedSize == old(c.reservedSize) + size && dropped(c.ll.seq, old(c.ll.seq)))
+//@   ensures[C03,C17] refused: result != nil ==> (c.reservedSize == old(c.reservedSize) && c.currentSize == old(c.currentSize) && c.ll.seq == old(c.ll.seq) && evq == old(evq) && c.uncompressedSize == old(c.uncompressedSize))
+//@   ensures[C17] hardlimit: (size > 0 && size <= c.maxSize && size + old(c.reservedSize) <= c.maxSize && c.maxSizeHardLimit > 0 && old(c.currentSize) + qobs + size > c.maxSizeHardLimit) ==>
+//@       (result != nil && istype(result, "*cache.Error") && as(result, "*cache.Error").Code == 507)
+//@   ensures[C17] admitted: (size > 0 && size <= c.maxSize && size + old(c.reservedSize) <= c.maxSize && (c.maxSizeHardLimit <= 0 || old(c.currentSize) + qobs + size <= c.maxSizeHardLimit)) ==> result == nil
+//@   ensures[C05,C18] toolarge: size > c.maxSize ==> (result != nil && istype(result, "*cache.Error") && as(result, "*cache.Error").Code == 400)
+//@   ensures[C03] full: (size > 0 && size <= c.maxSize && size + old(c.reservedSize) > c.maxSize) ==> (result != nil && istype(result, "*cache.Error") && as(result, "*cache.Error").Code == 507)
+//@   ensures zero: size == 0 ==> result == nil
+//@   loop 0 invariant index: lruIndex(c)
+//@   loop 0 invariant sizes: lruSizes(c)
+//@   loop 0 invariant frame: c.reservedSize == old(c.reservedSize) && c.maxSize == old(c.maxSize) && c.maxSizeHardLimit == old(c.maxSizeHardLimit)
+//@   loop 0 invariant[C05] order: dropped(c.ll.seq, old(c.ll.seq))
+//@   loop 0 modifies c.currentSize, c.uncompressedSize, c.ll.seq, mapof(c.cache), #list.Element.owner, evq
+//@   loop 0 decreases seqlen(c.ll.seq)
+//@   call removeElement#* asserts[C05] lru-first: payload(arg1.Value) == seqback(c.ll.seq)
+//@   call removeElement#* asserts[C05] pressure: size + c.currentSize > c.maxSize
+
+//@ func (c *SizedLRU) Add(key string, value lruItem) (ok bool)
+//@   serves C03 C04 C05 C07 C09 C17
+//@   requires lruInv(c)
+//@   requires sizes: 0 <= value.sizeOnDisk && value.sizeOnDisk <= B62() && 0 <= value.size && value.size <= B62()
+//@   assume nologicaloverflow: c.uncompressedSize + value.size + 4096 <= B62()
+//@   modifies c.currentSize, c.uncompressedSize, c.ll.seq, mapof(c.cache), #list.Element.owner, #list.Element.Value, evq, qobs, c.totalDiskSizePeak,
+//@            #lruItem.size, #lruItem.sizeOnDisk, #lruItem.legacy, #lruItem.random
+//@   ensures[C03,C07] inv: lruInv(c)
+//@   ensures[C03,C05] rejected: !ok ==> (c.currentSize == old(c.currentSize) && c.uncompressedSize == old(c.uncompressedSize) && c.ll.seq == old(c.ll.seq) && evq == old(evq))
+//@   ensures[C05] oversize: r4k(value.sizeOnDisk) > c.maxSize ==> !ok
+//@   ensures frame: c.reservedSize == old(c.reservedSize) && c.maxSize == old(c.maxSize)
+//@   loop 0 invariant index: lruIndex(c)
+//@   loop 0 invariant cur: c.currentSize == c.reservedSize + sum4k(c.ll.seq, #lruItem.sizeOnDisk) - sizeDelta
+//@   loop 0 invariant unc: c.uncompressedSize == sum4k(c.ll.seq, #lruItem.size) - uncompressedSizeDelta
+//@   loop 0 invariant bounds: 0 - B62() <= sizeDelta && sizeDelta <= B62() && 0 - B62() <= uncompressedSizeDelta && uncompressedSizeDelta <= B62() && c.currentSize <= c.maxSize && c.reservedSize + sizeDelta <= c.maxSize &&
+//@       0 - B62() <= c.currentSize && 0 - B62() <= c.uncompressedSize && c.uncompressedSize <= B62() && c.uncompressedSize + uncompressedSizeDelta <= B62()
+//@   loop 0 modifies c.currentSize, c.uncompressedSize, c.ll.seq, mapof(c.cache), #list.Element.owner, evq
+//@   loop 0 invariant frame: c.reservedSize == old(c.reservedSize) && c.maxSize == old(c.maxSize) && 0 <= c.reservedSize && 0 < c.maxSize && c.maxSize <= BMAX()
+//@   loop 0 decreases seqlen(c.ll.seq)
+//@   call removeElement#* asserts[C05] lru-first: payload(arg1.Value) == seqback(c.ll.seq)
+//@   call removeElement#* asserts[C05] pressure: c.currentSize + sizeDelta > c.maxSize
